@@ -11,7 +11,7 @@ import os
 import sys
 import time
 
-from . import evidence, runner
+from . import evidence, overlay, runner
 
 PROPS = {
     "C01": "vf.p_c01",
@@ -56,6 +56,9 @@ def main(argv=None):
             rc = mod.check(a.tier, seed, only=a.only)
     except evidence.Undecided as e:
         print("UNDECIDED property=%s %s" % (pid, e))
+        rc = 2
+    except overlay.OverlayError as e:  # an anchor of the contract overlay no longer fits the text: undecided, never a violation
+        print("UNDECIDED property=%s extraction broke: %s" % (pid, e))
         rc = 2
     finally:
         runner.cleanup()
